@@ -116,6 +116,11 @@ func (h *HostChain) UpdateV2TransactionSet(txns []types.V2Transaction, from, to 
 	if err := h.Inj.Hit("host.chain.UpdateV2TransactionSet"); err != nil {
 		return nil, err
 	}
+	// the interface allows an EMPTY result without error ("any transactions
+	// that were confirmed are removed from the set")
+	if err := h.Inj.Hit("host.chain.UpdateV2TransactionSet!empty-result"); err != nil {
+		return []types.V2Transaction{}, nil
+	}
 	return h.CM.UpdateV2TransactionSet(txns, from, to)
 }
 
